@@ -510,6 +510,9 @@ class _Gen:
         if view == "LdflagsX":
             inj = f"zqvinj{n}{self.tag}v"
             self.add(H, "a", f"var {name} = \"zqvorig{n}\"")
+            # the variable is set twice, a default first and the override last (layered build scripts): the linker
+            # lets the LAST -X win, so garble's duplicated flag must be produced per occurrence, in order
+            self.p.ldflags.append(f"-X={self.sympath(H)}.{name}=zqvdef{n}{self.tag}d")
             self.p.ldflags.append(f"-X={self.sympath(H)}.{name}={inj}")
             if H == "main":
                 read = name
